@@ -70,6 +70,8 @@ class _Tr:
         self.effects = set(effects)            # side effects the caller declared irrelevant for the *value*
         self.opaque: set[str] = set()          # locals holding an object obtained from a call with arguments
         self.ignored: list[str] = []
+        self.value_call: str | None = None     # the function's "value" is the argument of this call (or none)
+        self.args = {a.arg for a in fn.args.args[1:]}
         self.fields: dict[str, str] = {}
         self.reads: dict[str, str] = {}
         self.locals: dict[str, str] = {}       # name -> Lean type
@@ -159,6 +161,8 @@ class _Tr:
         if isinstance(e, ast.IfExp):
             return (f"(if {self.expr(e.test, 'Bool')} then {self.expr(e.body, ty)} "
                     f"else {self.expr(e.orelse, ty)})")
+        if isinstance(e, ast.Name) and e.id in self.args:
+            return self.named_input(e.id, e, ty)                      # a parameter of the function
         if isinstance(e, ast.Name):
             if e.id in self.locals:
                 if self.locals[e.id] != ty:
@@ -177,8 +181,23 @@ class _Tr:
     # ---- statements (continuation = the statements that follow) --------------------------------
     def stmts(self, body: list[ast.stmt]) -> str:
         if not body:
+            if self.value_call is not None:
+                return "none"                                         # the call was not reached
             raise Untranslatable("control reaches the end of the function without a return")
         s, rest = body[0], body[1:]
+        if self.value_call is not None and isinstance(s, ast.Expr) and isinstance(s.value, ast.Call) and \
+                (_chain(s.value.func) or [""])[-1] == self.value_call and len(s.value.args) == 1 and not rest \
+                and (_chain(s.value.func) or [""])[0] != "":
+            return f"some {self.expr(s.value.args[0], 'Rat')}"
+        if isinstance(s, ast.If) and isinstance(s.test, ast.Compare) and isinstance(s.test.left, ast.NamedExpr):
+            # `if (x := e) > 0:` - bind first, then test
+            ne = s.test.left
+            rhs = self.expr(ne.value, "Rat")
+            self.locals[ne.target.id] = "Rat"
+            test = ast.Compare(left=ast.Name(id=ne.target.id, ctx=ast.Load()), ops=s.test.ops,
+                               comparators=s.test.comparators)
+            s2 = ast.If(test=test, body=s.body, orelse=s.orelse)
+            return f"(let {ne.target.id} : Rat := {rhs}; {self.stmts([s2] + rest)})"
         if isinstance(s, ast.Expr) and isinstance(s.value, ast.Constant) and isinstance(s.value.value, str):
             return self.stmts(rest)                                   # docstring
         if isinstance(s, ast.Expr) and isinstance(s.value, ast.Call):
@@ -200,7 +219,12 @@ class _Tr:
             self.expr(s.test, "Bool")                                 # the condition must still make sense
             self.ignored.append(ast.unparse(s).replace("\n", " "))
             return self.stmts(rest)                                   # an effect-only branch
+        if isinstance(s, ast.With) and len(s.items) == 1 and s.items[0].optional_vars is None and \
+                (_chain(s.items[0].context_expr) or [""])[-1] == "lock":
+            return self.stmts(list(s.body) + rest)                    # a critical section: transparent for the value
         if isinstance(s, ast.Return):
+            if s.value is None and self.value_call is not None:
+                return "none"                                         # returned before the call
             if s.value is None:
                 raise Untranslatable("bare return")
             return self.expr(s.value, self.ret)
@@ -226,7 +250,7 @@ RET = {"bool": "Bool", "float": "Rat", "int": "Rat"}
 
 
 def translate(repo: Path, rel: str, cls: str, func: str, lean_name: str, enums: tuple[str, ...] = (),
-              effects: tuple[str, ...] = ()) -> Gen:
+              effects: tuple[str, ...] = (), value_call: str | None = None) -> Gen:
     path = repo / "src" / "pamiq_core" / rel
     try:
         src = path.read_text()
@@ -239,11 +263,14 @@ def translate(repo: Path, rel: str, cls: str, func: str, lean_name: str, enums: 
         raise Untranslatable(f"{cls}.{func} not found in {rel}")
     ann = ast.unparse(fn.returns) if fn.returns is not None else ""
     ret = RET.get(ann, "String" if ann in enums else None)
+    if value_call is not None and ann == "None":
+        ret = "Option Rat"
     if ret is None:
         raise Untranslatable(f"return annotation `{ann}` of {cls}.{func}")
-    if len(fn.args.args) != 1 or fn.args.vararg or fn.args.kwarg or fn.args.kwonlyargs:
-        raise Untranslatable(f"{cls}.{func} takes arguments")
+    if fn.args.vararg or fn.args.kwarg or fn.args.kwonlyargs:
+        raise Untranslatable(f"{cls}.{func} takes variadic arguments")
     tr = _Tr(fn, ret, set(enums), effects)
+    tr.value_call = value_call
     body = tr.stmts(list(fn.body))
     text = ast.get_source_segment(src, fn) or ""
     return Gen(lean_name, f"{rel}:{cls}.{func}", hashlib.sha1(text.encode()).hexdigest(),
